@@ -466,7 +466,7 @@ fn ssz_encode_derive_struct_transparent(
         );
     }
 
-    let (index, (ty, ident, _field_opts)) = ssz_fields
+    let (index, (ty, ident, field_opts)) = ssz_fields
         .iter()
         .enumerate()
         .find(|(_, (_, _, field_opts))| !field_opts.skip_deserializing)
@@ -475,23 +475,31 @@ fn ssz_encode_derive_struct_transparent(
     // Remove the `_usize` suffix from the value to avoid a compiler warning.
     let index = Index::from(index);
 
-    let output = if let Some(field_name) = ident {
+    let field = if let Some(field_name) = ident {
+        quote! { self.#field_name }
+    } else {
+        quote! { self.#index }
+    };
+
+    // Honour `#[ssz(with = "module")]` on the wrapped field, as the container derive does.
+    let output = if let Some(module) = &field_opts.with {
+        let module = quote! { #module::encode };
         quote! {
             impl #impl_generics ssz::Encode for #name #ty_generics #where_clause {
                 fn is_ssz_fixed_len() -> bool {
-                    <#ty as ssz::Encode>::is_ssz_fixed_len()
+                    #module::is_ssz_fixed_len()
                 }
 
                 fn ssz_fixed_len() -> usize {
-                    <#ty as ssz::Encode>::ssz_fixed_len()
+                    #module::ssz_fixed_len()
                 }
 
                 fn ssz_bytes_len(&self) -> usize {
-                    self.#field_name.ssz_bytes_len()
+                    #module::ssz_bytes_len(&#field)
                 }
 
                 fn ssz_append(&self, buf: &mut Vec<u8>) {
-                    self.#field_name.ssz_append(buf)
+                    #module::ssz_append(&#field, buf)
                 }
             }
         }
@@ -507,11 +515,11 @@ fn ssz_encode_derive_struct_transparent(
                 }
 
                 fn ssz_bytes_len(&self) -> usize {
-                    self.#index.ssz_bytes_len()
+                    #field.ssz_bytes_len()
                 }
 
                 fn ssz_append(&self, buf: &mut Vec<u8>) {
-                    self.#index.ssz_append(buf)
+                    #field.ssz_append(buf)
                 }
             }
         }
@@ -922,9 +930,16 @@ fn ssz_decode_derive_struct_transparent(
     }
 
     let mut fields = vec![];
-    let mut wrapped_type = None;
+    let mut wrapped = None;
 
     for (i, (ty, ident, field_opts)) in ssz_fields.into_iter().enumerate() {
+        // Honour `#[ssz(with = "module")]` on the wrapped field, as the container derive does.
+        let from_ssz_bytes = if let Some(module) = &field_opts.with {
+            quote! { #module::decode::from_ssz_bytes(bytes)? }
+        } else {
+            quote! { <_>::from_ssz_bytes(bytes)? }
+        };
+
         if let Some(name) = ident {
             if field_opts.skip_deserializing {
                 fields.push(quote! {
@@ -932,9 +947,9 @@ fn ssz_decode_derive_struct_transparent(
                 });
             } else {
                 fields.push(quote! {
-                    #name: <_>::from_ssz_bytes(bytes)?,
+                    #name: #from_ssz_bytes,
                 });
-                wrapped_type = Some(ty);
+                wrapped = Some((ty, field_opts.with));
             }
         } else {
             let index = syn::Index::from(i);
@@ -944,23 +959,35 @@ fn ssz_decode_derive_struct_transparent(
                 });
             } else {
                 fields.push(quote! {
-                    #index:<_>::from_ssz_bytes(bytes)?,
+                    #index: #from_ssz_bytes,
                 });
-                wrapped_type = Some(ty);
+                wrapped = Some((ty, field_opts.with));
             }
         }
     }
 
-    let ty = wrapped_type.unwrap();
+    let (ty, with) = wrapped.unwrap();
+
+    let (is_ssz_fixed_len, ssz_fixed_len) = if let Some(module) = with {
+        (
+            quote! { #module::decode::is_ssz_fixed_len() },
+            quote! { #module::decode::ssz_fixed_len() },
+        )
+    } else {
+        (
+            quote! { <#ty as ssz::Decode>::is_ssz_fixed_len() },
+            quote! { <#ty as ssz::Decode>::ssz_fixed_len() },
+        )
+    };
 
     let output = quote! {
         impl #impl_generics ssz::Decode for #name #ty_generics #where_clause {
             fn is_ssz_fixed_len() -> bool {
-                <#ty as ssz::Decode>::is_ssz_fixed_len()
+                #is_ssz_fixed_len
             }
 
             fn ssz_fixed_len() -> usize {
-                <#ty as ssz::Decode>::ssz_fixed_len()
+                #ssz_fixed_len
             }
 
             fn from_ssz_bytes(bytes: &[u8]) -> std::result::Result<Self, ssz::DecodeError> {
